@@ -2679,6 +2679,12 @@ func (s *Store) ChecksInStateByNodeMeta(ws memdb.WatchSet, state string, filters
 		return 0, nil, err
 	}
 
+	// The result depends on the node metadata as well: a node write that
+	// changes the metadata moves the nodes index but not the checks index.
+	if nodesIdx := catalogNodesMaxIndex(tx, entMeta, peerName); nodesIdx > idx {
+		idx = nodesIdx
+	}
+
 	return parseChecksByNodeMeta(tx, ws, idx, iter, filters, entMeta, peerName)
 }
 
